@@ -130,6 +130,43 @@ theorem map_eq_map_of_rel {α β γ δ : Type} (f : α → γ) (f' : β → γ) 
       map_eq_map_of_rel f f' r r' l₁ l₂ h.2 fun x hx y hy =>
         hp x (List.mem_cons_of_mem _ hx) y (List.mem_cons_of_mem _ hy)⟩
 
+/-! ## distinct keys -/
+
+theorem eq_of_nodup_map {α β : Type} (f : α → β) : ∀ (l : List α), (l.map f).Nodup →
+    ∀ a ∈ l, ∀ b ∈ l, f a = f b → a = b
+  | [], _, _, ha, _, _, _ => by cases ha
+  | x :: l, h, a, ha, b, hb, hab => by
+    simp only [List.map, List.nodup_cons, List.mem_map, not_exists, not_and] at h
+    rcases List.mem_cons.1 ha with rfl | ha' <;> rcases List.mem_cons.1 hb with rfl | hb'
+    · rfl
+    · exact absurd hab.symm (h.1 b hb')
+    · exact absurd hab (h.1 a ha')
+    · exact eq_of_nodup_map f l h.2 a ha' b hb' hab
+
+theorem find_key_of_mem : ∀ (l : List (String × String)), (l.map (·.1)).Nodup →
+    ∀ x ∈ l, l.find? (fun kv => kv.1 == x.1) = some x
+  | [], _, _, hx => by cases hx
+  | y :: l, hnd, x, hx => by
+    simp only [List.map, List.nodup_cons, List.mem_map, not_exists, not_and] at hnd
+    rcases List.mem_cons.1 hx with rfl | hx'
+    · simp [List.find?]
+    · have hne : (y.1 == x.1) = false := by
+        have : ¬ y.1 = x.1 := fun h => hnd.1 x hx' h.symm
+        simp [this]
+      simp only [List.find?, hne]
+      exact find_key_of_mem l hnd.2 x hx'
+
+theorem find_key_perm (s₁ s₂ : List (String × String)) (hp : s₁.Perm s₂) (hnd : (s₁.map (·.1)).Nodup) (n : String) :
+    s₁.find? (fun kv => kv.1 == n) = s₂.find? (fun kv => kv.1 == n) := by
+  by_cases h : ∃ x ∈ s₁, x.1 = n
+  · obtain ⟨x, hx, rfl⟩ := h
+    rw [find_key_of_mem s₁ hnd x hx, find_key_of_mem s₂ ((hp.map _).nodup_iff.1 hnd) x (hp.subset hx)]
+  · have h1 : s₁.find? (fun kv => kv.1 == n) = none :=
+      List.find?_eq_none.2 (fun x hx => by simp only [beq_iff_eq]; exact fun e => h ⟨x, hx, e⟩)
+    have h2 : s₂.find? (fun kv => kv.1 == n) = none :=
+      List.find?_eq_none.2 (fun x hx => by simp only [beq_iff_eq]; exact fun e => h ⟨x, hp.symm.subset hx, e⟩)
+    rw [h1, h2]
+
 /-! ## the explicit hypotheses -/
 
 /-- the files whose digests enter the manifest of one package -/
@@ -516,6 +553,13 @@ theorem run_append (s : State φ Obj) (a b : List Step) :
   induction a generalizing s with
   | nil => rfl
   | cons x xs ih => simp only [List.cons_append, run]; exact ih _
+
+/-- two units with the same fingerprint: after `build, edit, build` the second build hands out the FIRST unit's archive -/
+theorem served_stale (g₁ g₂ : Global) (t₁ t₂ : PkgT) (hk : fp (key hb fp g₂ t₂) = fp (key hb fp g₁ t₁))
+    (hn : (t₁.data.name != "main") = true) :
+    served hb fp compileRel ⟨g₁, [t₁]⟩ [.build {}, .edit ⟨g₂, [t₂]⟩, .build {}]
+      = some [compileRel (relevant g₁ t₁)] := by
+  simp [served, run, step, State.init, buildProg, buildPkg, lookup, List.find?, hk, hn]
 
 end Invariant
 
